@@ -105,15 +105,15 @@ type Frame struct {
 }
 
 type G struct {
-	id      int
-	name    string
-	stack   []*Frame
-	done    bool
-	wait    func() bool // non-nil => blocked until wait() is true
-	waitOn  string
-	pending *pendingSend
-	atSwitch bool // a scheduling decision has just been taken at the current instruction
-	selPick  int  // select case picked by the scheduler for the retried select (-1 none)
+	id        int
+	name      string
+	stack     []*Frame
+	done      bool
+	wait      func() bool // non-nil => blocked until wait() is true
+	waitOn    string
+	pending   *pendingSend
+	atSwitch  bool // a scheduling decision has just been taken at the current instruction
+	selPick   int  // select case picked by the scheduler for the retried select (-1 none)
 	syncDepth int
 	parked    bool // slow-yield policy: waiting at the end of a plugin call until nothing else can run
 	parkSeq   int
@@ -137,33 +137,35 @@ type Violation struct {
 }
 
 type Config struct {
-	Harness     string
-	Tier        string // quick | thorough
-	MaxSteps    int
-	Preemptions int
-	SwitchOn    map[string]bool // chan lock atomic yield go
-	Ticks       int             // ticks offered by each Ticker
-	SlowYield   []string        // switch classes (prefixes) at which a goroutine parks by default: "plugin calls are slow"
-	Bounds      map[string]int  // echoed Bound() values
-	Concrete    map[string]int64 // concrete mode (selftest/validation): values for nondet vars
+	Harness         string
+	Tier            string // quick | thorough
+	MaxSteps        int
+	Preemptions     int
+	SwitchOn        map[string]bool  // chan lock atomic yield go
+	Ticks           int              // ticks offered by each Ticker
+	SlowYield       []string         // switch classes (prefixes) at which a goroutine parks by default: "plugin calls are slow"
+	Bounds          map[string]int   // echoed Bound() values
+	Concrete        map[string]int64 // concrete mode (selftest/validation): values for nondet vars
 	ConcreteChoices map[string]int64
 }
 
 type Interp struct {
-	P      *Program
-	Cfg    *Config
-	Solver *smt.Solver
-	Solver2 *smt.Solver // optional cross-check solver
+	P                    *Program
+	Cfg                  *Config
+	Solver               *smt.Solver
+	Solver2              *smt.Solver // optional cross-check solver
+	CrossEvery           int
+	crossCtr             int
 	nCross, crossUnknown int
 
-	pc      []pcEntry
-	dsu     map[string]string
+	pc       []pcEntry
+	dsu      map[string]string
 	varCache map[int64][]string
-	pending []pendingAssert
-	prefix  []int64
-	taken   []int64
-	kinds   []string
-	newWork [][]int64
+	pending  []pendingAssert
+	prefix   []int64
+	taken    []int64
+	kinds    []string
+	newWork  [][]int64
 
 	globals map[*ssa.Global]*Value
 	inited  map[*ssa.Package]bool
@@ -174,29 +176,29 @@ type Interp struct {
 	parkCtr int
 	races   int // scheduling decisions taken while another goroutine, just woken from a blocking wait, was free to run (the native replay controller cannot order those)
 
-	vars     []*smt.Term
-	varSeq   map[string]int
-	trace    []string
-	facts    map[string]string
-	reached  map[string]bool
+	vars       []*smt.Term
+	varSeq     map[string]int
+	trace      []string
+	facts      map[string]string
+	reached    map[string]bool
 	boundsUsed map[string]int
-	fnsSeen  map[string]bool
-	stubsSeen map[string]bool
+	fnsSeen    map[string]bool
+	stubsSeen  map[string]bool
 
-	violations []*Violation
-	nBranchQ   int
+	violations    []*Violation
+	nBranchQ      int
 	floatBranches int
 
-	side map[any]any // side tables for intrinsics (mutex state, sharded maps, ...)
-	uuidCtr int
-	clock  *smt.Term // last clock reading
-	clockN int
+	side         map[any]any // side tables for intrinsics (mutex state, sharded maps, ...)
+	uuidCtr      int
+	clock        *smt.Term // last clock reading
+	clockN       int
 	clockLogical bool
 	clockReads   []IntV
-	mainDone bool
-	quiescing bool
-	chooseSeq map[string]int
-	choices   map[string]int64
+	mainDone     bool
+	quiescing    bool
+	chooseSeq    map[string]int
+	choices      map[string]int64
 
 	initDepth       int
 	unknownBranches int
@@ -834,24 +836,24 @@ func (it *Interp) evalTerm(extra *smt.Term, t *smt.Term) (uint64, smt.Result) {
 // ---------- main loop ----------
 
 type PathResult struct {
-	End        pathEnd
-	Violations []*Violation
-	NewWork    [][]int64
-	Taken      []int64
-	Kinds      []string
-	Steps      int
-	Reached    map[string]bool
-	Fns        map[string]bool
-	Stubs      map[string]bool
-	Bounds     map[string]int
-	BranchQ    int
-	UnknownBr  int
-	Trace      []string
-	Facts      map[string]string
-	PCSize     int
-	Vars       int
-	SampleModel map[string]int64
-	Asserts, AssertQ int
+	End                 pathEnd
+	Violations          []*Violation
+	NewWork             [][]int64
+	Taken               []int64
+	Kinds               []string
+	Steps               int
+	Reached             map[string]bool
+	Fns                 map[string]bool
+	Stubs               map[string]bool
+	Bounds              map[string]int
+	BranchQ             int
+	UnknownBr           int
+	Trace               []string
+	Facts               map[string]string
+	PCSize              int
+	Vars                int
+	SampleModel         map[string]int64
+	Asserts, AssertQ    int
 	Cross, CrossUnknown int
 }
 
